@@ -2098,7 +2098,15 @@ func (p *Parser) evaluateUnaryOperation(ctx context) (Expression, error) {
 		}
 	}
 	valueToken := p.peek()
-	expr, err := p.evaluateSingleExpression(ctx)
+	var expr Expression
+	var err error
+
+	// A negation may be applied to another negation (e.g. !!b).
+	if negate {
+		expr, err = p.evaluateUnaryOperation(ctx)
+	} else {
+		expr, err = p.evaluateSingleExpression(ctx)
+	}
 
 	if err != nil {
 		return nil, err
